@@ -38,7 +38,7 @@ def slow_api(ctx, execs):
                               "strategy": "pct" if k % 2 else "random"}))
     out = run_campaign(ctx, items)
     for e in out:
-        for fn in (oracles.c03, oracles.c06, oracles.c07):
+        for fn in (oracles.c03, oracles.c03_parked_on_recorded_retry, oracles.c06, oracles.c07):
             fn(ctx, e)
     more = fault_enumeration(ctx, ["s01_step_wait_retry", "s03_child_wfc", "s12_wfc_three_polls", "s22_slow_steps", "s23_slow_caught"],
                              [oracles.c03, oracles.c06], faults=["invalid_param", "throttle429"])
@@ -61,7 +61,7 @@ def run(ctx):
                           {"nodes": [{"k": "par", "branches": [[{"k": "step", "fail": 2, "max": 3}, {"k": "step"}], [{"k": "step", "dur": 1.5}]]}, {"k": "step"}]},
                           {"nodes": [{"k": "par", "branches": [[{"k": "step", "fail": 2, "max": 3}, {"k": "step"}], [{"k": "step", "dur": 2.5}]]}, {"k": "step"}]},
                           {"nodes": [{"k": "map", "branches": [[{"k": "step", "fail": 2, "max": 3}], [{"k": "step", "dur": 8.0}]]}, {"k": "step"}]}],
-                oracle_fns=[oracles.c03, oracles.c06, oracles.c07],
+                oracle_fns=[oracles.c03, oracles.c03_parked_on_recorded_retry, oracles.c06, oracles.c07],
                 scen_kw={"crash": 0.3, "faults": 0.5, "pct": 0.6, "ext_fail": 0.7},
                 post=slow_api,
                 extra_rule="Oracle: at every delivery the backend table (read in the same scheduling step) holds the terminal record; "
